@@ -52,6 +52,10 @@ Value& GETSYSExpression::value(Context & ctx) const
   Value& val = _args[0]->value(ctx);
   Value v;
 
+  /* a table, null or not, is not an argument of this function */
+  if (val.type().level())
+    throw RuntimeError(EXC_RT_FUNC_ARG_TYPE_S, KEYWORDS[oper]);
+
   switch (val.type().major())
   {
   case Type::NO_TYPE:
